@@ -71,7 +71,7 @@ def drive(draw, h, cfg):
     if M <= KMAX:
         h.stats['c14_prefix_exhaustive'] += 1
     for k in ks:
-        for catch in (False, True):
+        for catch in (False, True, 'root'):
             if h.dead:
                 return
             h.apply(['restore'])
@@ -92,6 +92,8 @@ def drive(draw, h, cfg):
                 h.stats['c14_fault_outside_any_call'] += 1
             if h.dead:
                 return
+            if catch == 'root' and call is not None and call != '<top>' and not getattr(h.rctx, 'extra', {}).get('fault_nested'):
+                h.stats['c14_root_catch_runs'] += 1
             if not catch or call == '<top>':
                 step(h, ['build', vers, None, None, 'cmp_twin'])
                 if call == '<top>':
